@@ -366,6 +366,22 @@ if [ -n "$SSH_STANDIN_LOG" ]; then
   printf '%s' "$cmd" > "$SSH_STANDIN_LOG.$$.$RANDOM"
 fi
 cd "$HOME" || exit 255
+if [ -n "$SSH_STANDIN_FAULT" ]; then
+  # the client process of ONE transfer fails: killed by a signal or exiting 255, before the remote command
+  # ran, after it completed, or half-way through the data
+  mode="${SSH_STANDIN_FAULT%%:*}"; needle="${SSH_STANDIN_FAULT#*:}"
+  case "$cmd" in *"$needle"*)
+    case "$mode" in
+      kill-before) kill -KILL $$;;
+      exit-before) exit 255;;
+      run-then-kill) /bin/bash -c "$cmd"; kill -KILL $$;;
+      run-then-exit) /bin/bash -c "$cmd"; exit 255;;
+      partial-out-then-kill) /bin/bash -c "$cmd" | head -c 70000; kill -KILL $$;;
+      partial-in-then-kill) head -c 70000 | /bin/bash -c "$cmd"; kill -KILL $$;;
+      partial-out-then-term) /bin/bash -c "$cmd" | head -c 1000; kill -TERM $$;;
+    esac;;
+  esac
+fi
 exec /bin/bash -c "$cmd"
 """
 
